@@ -3,6 +3,7 @@ package receiver
 import (
 	"context"
 	"fmt"
+	"github.com/PowerDNS/lightningstream/utils/verifhook"
 	"sync"
 	"time"
 
@@ -100,6 +101,7 @@ type Receiver struct {
 // Next returns the next remote snapshot.Update to process if there is one
 // It is to be called by the Syncer.
 func (r *Receiver) Next() (instance string, update snapshot.Update) {
+	verifhook.Yield("recv.next.lock", r.ownInstance)
 	// Prioritize snapshots
 	r.mu.Lock()
 	for instance, update = range r.snapshotsByInstance {
@@ -153,6 +155,7 @@ func (r *Receiver) SeenInstances() (names []string) {
 // snapshot to be promoted to the latest for an instance, or for the instance
 // to disappear from the SeenInstances() if this was the only remaining snapshot.
 func (r *Receiver) MarkCorrupt(filename string, err error) {
+	verifhook.Yield("recv.markcorrupt.lock", r.ownInstance)
 	r.mu.Lock()
 	defer r.mu.Unlock()
 	if _, exists := r.corruptSnapshots[filename]; exists {
@@ -204,6 +207,7 @@ func (r *Receiver) RunOnce(ctx context.Context, includingOwn bool) error {
 
 	names := ls.Names()
 
+	verifhook.Yield("recv.runonce.lock1", r.ownInstance)
 	// Update ignoredFilenames from corruptSnapshots.
 	// Under normal circumstances the corruptSnapshots map should always be empty.
 	r.mu.Lock()
@@ -243,6 +247,7 @@ func (r *Receiver) RunOnce(ctx context.Context, includingOwn bool) error {
 	// This is safe, because it is a new map on every run
 	r.events.LastSeenSnapshotByInstance.Publish(lastSeenByInstance)
 
+	verifhook.Yield("recv.runonce.lock2", r.ownInstance)
 	// It is safe to continue using the map after this, because the map is not
 	// mutated from this point on.
 	// This map is read by the Downloader.
@@ -277,6 +282,7 @@ func (r *Receiver) RunOnce(ctx context.Context, includingOwn bool) error {
 		metricSnapshotsLastReceivedAge.WithLabelValues(r.lmdbname, inst).
 			Observe(float64(age) / float64(time.Second))
 
+		verifhook.Yield("recv.runonce.notify", inst)
 		d := r.getDownloader(ctx, inst)
 		d.NotifyNewSnapshot()
 		r.lastNotifiedByInstance[inst] = ni
